@@ -46,6 +46,21 @@ async fn run_ops<C: async_graphql::dataloader::CacheFactory>(dl: DataLoader<L, C
                 if hit.is_none() && after == before { bad.push(format!("op#{} load({}) did not ask the loader although the key is not served from the cache", i, k)); }
                 if hit.is_none() && use_cache { if let Some(v) = f(k) { m.put(k, v); } }
             }
+            "load_many" => {
+                // several keys at once (duplicates allowed): every key is answered from the cache or the loader, exactly as single loads would
+                let ks: Vec<i32> = op["ks"].as_array().unwrap().iter().map(|x| x.as_i64().unwrap() as i32).collect();
+                let use_cache = caching && all_on && ty_on;
+                let r = dl.load_many(ks.clone()).await.unwrap();
+                let mut exp: HashMap<i32, i64> = HashMap::new();
+                let mut uniq = ks.clone(); uniq.sort(); uniq.dedup();
+                let mut misses = Vec::new();
+                for k in ks.iter() { if exp.contains_key(k) || misses.contains(k) { continue; } let hit = if use_cache { m.get(*k) } else { None }; match hit { Some(v) => { exp.insert(*k, v); } None => { misses.push(*k); } } }
+                for k in &misses { if let Some(v) = f(*k) { exp.insert(*k, v); if use_cache { m.put(*k, v); } } }
+                if r != exp { bad.push(format!("op#{} load_many({:?}) = {:?}, expected {:?}", i, ks, sorted(&r), sorted(&exp))); }
+                let _ = uniq;
+            }
+            "feed_many" => { let kv: Vec<(i32, i64)> = op["kv"].as_array().unwrap().iter().map(|p| (p[0].as_i64().unwrap() as i32, p[1].as_i64().unwrap())).collect();
+                dl.feed_many(kv.clone()).await; for (k, v) in kv { m.put(k, v); } }
             "load_s" => { let s = format!("s{}", k); let r = dl.load_one(s.clone()).await.unwrap(); if r != Some(s.len() as i64) { bad.push(format!("op#{} load_s = {:?}", i, r)); } }
             "feed" => { let v = op["v"].as_i64().unwrap(); dl.feed_one(k, v).await; m.put(k, v); }
             "clear" => { dl.clear::<i32>(); m.entries.clear(); }
@@ -99,6 +114,10 @@ pub fn inputs(seed: u64) -> impl Iterator<Item = Value> {
         out.push(json!({"cache": c, "ops": [{"op":"feed","k":1,"v":10},{"op":"feed","k":2,"v":20},{"op":"feed","k":1,"v":11},{"op":"feed","k":3,"v":30},{"op":"feed","k":4,"v":40}]}));
         out.push(json!({"cache": c, "ops": [{"op":"load","k":1},{"op":"load","k":2},{"op":"load","k":1},{"op":"load","k":3},{"op":"load","k":4},{"op":"load","k":1}]}));
     }
+    for c in ["hash", "lru", "none"] {
+        out.push(json!({"cache": c, "ops": [{"op":"feed","k":1,"v":77},{"op":"load_many","ks":[1,2,1,-1]},{"op":"load_many","ks":[2,3]},{"op":"clear_one","k":2},{"op":"load_many","ks":[1,2,3]},{"op":"load_s","k":2},{"op":"enable_s","b":false},{"op":"load_many","ks":[1]}]}));
+        out.push(json!({"cache": c, "ops": [{"op":"feed_many","kv":[[1,5],[1,6],[2,7]]},{"op":"load_many","ks":[1,2]},{"op":"enable_all","b":false},{"op":"load_many","ks":[1,2,3]},{"op":"enable","b":false},{"op":"enable_all","b":true},{"op":"load_many","ks":[1,4]},{"op":"enable","b":true},{"op":"load_many","ks":[4,1]}]}));
+    }
     for c in ["hash", "lru2"] {
         out.push(json!({"cache": c, "ops": [{"op":"enable","b":false},{"op":"clear"},{"op":"feed","k":2,"v":70},{"op":"load","k":2},{"op":"load","k":1}]}));
         out.push(json!({"cache": c, "ops": [{"op":"enable_all","b":false},{"op":"clear_one","k":2},{"op":"feed","k":2,"v":70},{"op":"load","k":2},{"op":"enable_all","b":true},{"op":"load","k":2}]}));
@@ -106,7 +125,10 @@ pub fn inputs(seed: u64) -> impl Iterator<Item = Value> {
     for _ in 0..160 {
         let c = *r.pick(&["hash", "lru", "lru1", "lru2", "lru3", "lru2", "none"]);
         let n = 2 + r.below(10);
-        let ops: Vec<Value> = (0..n).map(|_| { let k = r.below(6) as i64 - 1; match r.below(10) {
+        let ops: Vec<Value> = (0..n).map(|_| { let k = r.below(6) as i64 - 1; match r.below(12) {
+            // (small LRU capacities: the order in which one batch's values enter the cache is unspecified, so batches are only used where no eviction can depend on it)
+            10 => if c.starts_with("lru") && c != "lru" { json!({"op":"load","k":k}) } else { let ks: Vec<i64> = (0..(1 + r.below(4))).map(|_| r.below(6) as i64 - 1).collect(); json!({"op":"load_many","ks":ks}) },
+            11 => { let kv: Vec<(i64, i64)> = (0..(1 + r.below(3))).map(|_| (r.below(6) as i64 - 1, 2000 + r.below(5) as i64)).collect(); json!({"op":"feed_many","kv":kv}) },
             0 | 1 | 2 => json!({"op":"load","k":k}), 3 => json!({"op":"load_s","k":k}), 4 => json!({"op":"feed","k":k,"v": 1000 + r.below(5) as i64}), 5 => json!({"op":"clear"}),
             6 => json!({"op":"clear_one","k":k}), 7 => json!({"op":"enable","b": r.below(2)==0}), 8 => json!({"op":"enable_all","b": r.below(2)==0}), _ => json!({"op":"cached"}) } }).collect();
         out.push(json!({"cache": c, "ops": ops}));
